@@ -181,6 +181,31 @@ def exhaustive_models(max_leaves: int, names: list[str], occs=OCC_SMALL, depth: 
         yield from groups(n, depth)
 
 
+def random_small(rng, nleaves: int, names: list[str], occs=OCC_SMALL, depth: int = 2,
+                 kinds=('sequence', 'choice')) -> tuple:
+    """a random member of the family enumerated by `exhaustive_models` with exactly `nleaves` leaves
+    (sampled by structure, not uniformly: the family has ~1.6e7 members for 3 leaves)"""
+    def leaf() -> tuple:
+        lo, hi = rng.choice(occs)
+        return ('e', rng.choice(names), lo, hi)
+
+    def group(n: int, d: int) -> tuple:
+        lo, hi = rng.choice(occs)
+        return ('g', rng.choice(kinds), lo, hi, item_list(n, d))
+
+    def item_list(n: int, d: int) -> list:
+        out = []
+        while n > 0:
+            first = 1 if d <= 1 else rng.randint(1, n)
+            if first == 1 and (d <= 1 or rng.random() < 0.75):
+                out.append(leaf())
+            else:
+                out.append(group(first, d - 1))
+            n -= first
+        return out
+    return group(nleaves, depth)
+
+
 def random_model(rng, names: list[str], max_depth: int = 3, max_items: int = 3, v11: bool = False,
                  allow_all: bool = True, top: bool = True, any_p: float = 0.12) -> tuple:
     occs = [(1, 1)] * 4 + [(0, 1)] * 3 + [(0, None), (1, None), (2, 2), (1, 2), (0, 2), (2, 3), (2, None), (0, 0), (1, 3)]
